@@ -10,7 +10,10 @@ EXTENDS Naturals, Sequences
 
 \* ---- writer protocol (C15): set_header at most once and before any write; no write after one returned
 \* ---- FALSE; finish at most once and nothing after it
+\* (the type annotations below are for Apalache, see WriterChain.tla; TLC ignores them)
+\* @type: { hdr: Int, writes: Int, refused: Bool, fin: Int, bad: Bool };
 M0 == [hdr |-> 0, writes |-> 0, refused |-> FALSE, fin |-> 0, bad |-> FALSE]
+\* @type: ({ hdr: Int, writes: Int, refused: Bool, fin: Int, bad: Bool }, Str, Bool) => { hdr: Int, writes: Int, refused: Bool, fin: Int, bad: Bool };
 MStep(m, e, ok) ==
     CASE e = "set_header" -> IF m.hdr = 0 /\ m.writes = 0 /\ m.fin = 0 THEN [m EXCEPT !.hdr = 1] ELSE [m EXCEPT !.bad = TRUE]
       [] e = "write"      -> IF m.refused \/ m.fin = 1 THEN [m EXCEPT !.bad = TRUE]
@@ -19,7 +22,9 @@ MStep(m, e, ok) ==
       [] OTHER            -> m
 
 \* ---- pulls (C02, C15 "stops promptly", C04 "B is read completely before A")
+\* @type: { a: Int, b: Int, bend: Bool, refusedSeen: Bool, pullAfterRefusal: Bool, aBeforeBEnd: Bool, bAfterEnd: Bool };
 P0 == [a |-> 0, b |-> 0, bend |-> FALSE, refusedSeen |-> FALSE, pullAfterRefusal |-> FALSE, aBeforeBEnd |-> FALSE, bAfterEnd |-> FALSE]
+\* @type: ({ a: Int, b: Int, bend: Bool, refusedSeen: Bool, pullAfterRefusal: Bool, aBeforeBEnd: Bool, bAfterEnd: Bool }, { e: Str, t: Str, end: Bool, ok: Bool }) => { a: Int, b: Int, bend: Bool, refusedSeen: Bool, pullAfterRefusal: Bool, aBeforeBEnd: Bool, bAfterEnd: Bool };
 PStep(p, ev) ==
     CASE ev.e = "get_record" /\ ev.t = "a" ->
             [p EXCEPT !.a = @ + 1, !.pullAfterRefusal = @ \/ p.refusedSeen, !.aBeforeBEnd = @ \/ (p.b > 0 /\ ~p.bend)]
